@@ -19,6 +19,7 @@ not ValueError.  `rejected_iff_partial` therefore excludes exactly that shape, a
 -/
 import PromVerif.Lemmas.MetricsCollect
 import PromVerif.Lemmas.MetricsFrame
+import PromVerif.Lemmas.MetricsNodup
 
 namespace PromVerif.Props.C01
 open PromVerif.Py PromVerif.Model.Metrics PromVerif.Generated.Metrics PromVerif.Lemmas.Metrics
@@ -50,6 +51,12 @@ theorem state_is_replay_of_accepted (ds : List (Decl V)) (ops : List (Op V)) :
     (run (Reg.fresh ds) ops).1
       = List.zipWith metricOf ds (Spec.Metrics.history ds (accepted (Reg.fresh ds) ops)) :=
   (run_fresh_abs ds ops).eq
+
+/-- … and its child table is a dict: the keys (tuples of stringified label values) are pairwise distinct -/
+theorem reachable_keys_nodup (ds : List (Decl V)) (ops : List (Op V)) :
+    ∀ m ∈ (run (Reg.fresh ds) ops).1, (m.children.map (·.1)).Nodup := by
+  rw [state_is_replay_of_accepted]
+  exact zipWith_metricOf_keys ds _ (history_keysNodup ds _)
 
 /-! ## 2. rejected calls -/
 
